@@ -9,6 +9,7 @@ class EventSourceParser:
         self.events = []        # dispatched: dict(type, data, lastEventId)
         self.last_event_id = ""
         self.reconnection_time = None
+        self.retry_fields = []  # every reconnection time the stream set, in order (the stream's blocks, not only the final state)
         self._data = ""
         self._type = ""
         self._buf = ""
@@ -62,6 +63,7 @@ class EventSourceParser:
         elif field == "retry":
             if re.fullmatch(r"[0-9]+", value):
                 self.reconnection_time = int(value)
+                self.retry_fields.append(int(value))
 
     def _dispatch(self):
         if self._data == "":
